@@ -391,11 +391,11 @@ theorem Prov.exitThread {T U : List Nat} {s : Sys} (h : Prov T U s) (t : Nat) : 
   have h2 := h1.setTh t { s1.th t with guards := [], alive := false, pending := [] } ⟨hth.1, by simp⟩
   split
   · cases hr : (s1.setTh t { s1.th t with guards := [], alive := false, pending := [] }).ringOf t with
-    | none => exact h2
+    | none => exact h2.withG _
     | some r =>
       dsimp only
-      exact h2.setRing t _ (Ring.senderDrop_all (CmdOk T) r _ (h2.ringOf hr) hth.2)
-  · exact h2
+      exact (h2.setRing t _ (Ring.senderDrop_all (CmdOk T) r _ (h2.ringOf hr) hth.2)).withG _
+  · exact h2.withG _
 
 theorem Prov.spamOnce {T U : List Nat} {s : Sys} (h : Prov T U s) (t : Nat) (h0 : 0 ∈ U) : Prov T U (s.spamOnce t) := by
   unfold Sys.spamOnce
